@@ -91,7 +91,18 @@ def apply_jitter(doc, kind, moves, frozen_paths=()):
         leaves.append((path, d))
     if not leaves:
         return doc
+    expanded = []
     for sel, k, e in moves:
+        if sel == 'all':
+            # dense variant: every movable leaf, multiplier from a small LCG seeded by k
+            x = (k % 2147483647) or 1
+            for i in range(len(leaves)):
+                x = (x * 48271) % 2147483647
+                kk = (x % 15) - 7
+                expanded.append((i, kk if kk else 3, e))
+        else:
+            expanded.append((sel, k, e))
+    for sel, k, e in expanded:
         path, d = leaves[sel % len(leaves)]
         v = get_path(doc, path)
         delta = k * Decimal(10) ** -(d + e)
@@ -131,24 +142,55 @@ def keys_first(doc):
     return doc
 
 
-@st.composite
-def finished(draw, doc, kind, frozen_paths=(), feats=None):
-    """quantise, jitter, canonical member order (+ rarely one keyed entry with its key written last).
-    returns (doc, cls)"""
-    quantize(doc, kind)
-    cls = draw(st.sampled_from(['a', 'a', 'b']))
-    mv = draw(moves(6, excess=False))
-    if cls == 'b':
-        mv += draw(moves(4, excess=True, min_moves=1))
-    apply_jitter(doc, kind, mv, frozen_paths)
-    keys_first(doc)
-    if feats is not None and draw(st.integers(0, 11)) == 0:
-        entries = [(n, e, k) for n, e, k in keyed_entries(doc) if len(e) > len(k)]
-        if entries:
-            name, entry, keys = entries[draw(st.integers(0, len(entries) - 1))]
-            items = [(k, v) for k, v in entry.items() if k not in keys] + [(k, entry[k]) for k in keys]
+def _ident(v):
+    return float(v) if is_number(v) else v
+
+
+def apply_key_last(doc, spec):
+    """write the key member(s) of the entry identified by spec = {'list': name, 'key': [values]} last
+    (an entry made of key members only gets them in reverse order)"""
+    for name, entry, keys in keyed_entries(doc):
+        if name == spec['list'] and [_ident(entry[k]) for k in keys] == [_ident(v) for v in spec['key']]:
+            rest = [(k, v) for k, v in entry.items() if k not in keys]
+            ks = [(k, entry[k]) for k in keys]
+            items = rest + ks if rest else list(reversed(ks))
             entry.clear()
             entry.update(items)
+            return True
+    return False
+
+
+def canonical(case_doc, key_last=None):
+    """what a check runs on: fresh copy, canonical member order (independent of how the case was serialised, e.g. a
+    replay file written with sorted keys), then the recorded key-last entry if the case is of that tagged class"""
+    doc = keys_first(copy.deepcopy(case_doc))
+    if key_last:
+        apply_key_last(doc, key_last)
+    return doc
+
+
+@st.composite
+def finished(draw, doc, kind, frozen_paths=(), feats=None, extra=None):
+    """quantise, jitter, canonical member order; rarely records in extra['key_last'] one keyed entry whose key member
+    is to be written last (applied by `canonical` at run time). returns (doc, cls)"""
+    quantize(doc, kind)
+    cls = draw(st.sampled_from(['a', 'a', 'b']))
+    if draw(st.sampled_from([False, False, True])):
+        mv = [['all', draw(st.integers(1, 10 ** 6)), 0]]
+    else:
+        mv = draw(moves(6, excess=False))
+    if cls == 'b':
+        if draw(st.sampled_from([False, False, True])):
+            mv.append(['all', draw(st.integers(1, 10 ** 6)), draw(st.integers(1, 3))])
+        else:
+            mv += draw(moves(4, excess=True, min_moves=1))
+    apply_jitter(doc, kind, mv, frozen_paths)
+    keys_first(doc)
+    if feats is not None and draw(st.sampled_from([False] * 11 + [True])):
+        entries = [(n, e, k) for n, e, k in keyed_entries(doc) if len(e) > len(k)]
+        if entries and extra is not None:
+            name, entry, keys = entries[draw(st.integers(0, len(entries) - 1))]
+            extra['key_last'] = {'list': name, 'key': [entry[k] for k in keys]}
             feats.add('key-not-first:' + name)
     return doc, ('b' if excess_leaves(doc, kind) else 'a')
 
@@ -243,8 +285,9 @@ def equipment_doc(draw, multiband=None, aliases=None, for_network=False):
     # shared Fiber/RamanFiber entries must keep agreeing; nf_min/nf_max feed a fitted model with hard bounds
     frozen = [('RamanFiber', 0)] + [('Fiber', i) for i, f in enumerate(eq['Fiber']) if f['type_variety'] == 'SSMF']
     frozen += [('Edfa', i, k) for i, e in enumerate(eq['Edfa']) for k in ('nf_min', 'nf_max')]
-    eq, cls = draw(finished(eq, 'equipment', frozen, feats=None if for_network else feats))
-    return {'doc': eq, 'cls': cls, 'features': sorted(feats)}
+    extra = {}
+    eq, cls = draw(finished(eq, 'equipment', frozen, feats=None if for_network else feats, extra=extra))
+    return dict({'doc': eq, 'cls': cls, 'features': sorted(feats)}, **extra)
 
 
 # ----------------------------------------------------------------------------------------- topology
@@ -264,6 +307,7 @@ def enrich_topology(draw, topo, eq, feats):
     conns = topo['connections']
     mb = any(e['type_variety'] == 'MB' for e in eq['Edfa'])
     r2 = next((r for r in eq['Roadm'] if 'roadm-path-impairments' in r), None)
+    use_dpf = draw(st.sampled_from([False] * 7 + [True]))     # rarer: one fibre of one document in eight
     for el in els:
         loc = el.get('metadata', {}).get('location')
         if loc is not None:
@@ -304,7 +348,7 @@ def enrich_topology(draw, topo, eq, feats):
             elif w == 4:
                 p['effective_area'] = draw(st.sampled_from([80e-12, 72.5e-12, 125e-12]))
                 feats.add('effective_area')
-            elif w == 5:
+            elif w == 5 and use_dpf and 'dispersion_per_frequency' not in feats:
                 p['dispersion_per_frequency'] = {'value': [1.6e-05, 1.7e-05, 1.81e-05],
                                                  'frequency': [191e12, 193.5e12, 196e12]}
                 feats.add('dispersion_per_frequency')
@@ -380,7 +424,7 @@ def enrich_topology(draw, topo, eq, feats):
                 del el['params']
     # a Multiband_amplifier element spliced in front of the first fibre of some chain
     if mb and draw(st.booleans()):
-        fibres = [e for e in els if e['type'] == 'Fiber']
+        fibres = [e for e in els if e['type'] in ('Fiber', 'RamanFiber')]
         f = fibres[draw(st.integers(0, len(fibres) - 1))]
         uid = 'mbamp ' + f['uid']
         style = draw(st.sampled_from(['full', 'typed', 'bare']))
@@ -430,8 +474,9 @@ def topology_case(draw, n=(2, 4), for_propagation=False):
             feats.add('loss_coef-per-frequency')
         if 'lumped_losses' in p:
             feats.add('lumped_losses')
-    topo, cls = draw(finished(topo, 'topology', feats=None if for_propagation else feats))
-    return {'eq': eq, 'doc': topo, 'cls': cls, 'features': sorted(feats), 'n': truth['n']}
+    extra = {}
+    topo, cls = draw(finished(topo, 'topology', feats=None if for_propagation else feats, extra=extra))
+    return dict({'eq': eq, 'doc': topo, 'cls': cls, 'features': sorted(feats), 'n': truth['n']}, **extra)
 
 
 # ----------------------------------------------------------------------------------------- services
@@ -471,7 +516,9 @@ def services_case(draw):
             feats.add('trx_mode-absent')
         per_m = -(-int(spacing) // int(12.5e9))
         nreq = -(-int(bw) // int(mode['bit_rate'])) if w == 'mode' else -(-int(bw) // int(100e9))
-        s = draw(st.sampled_from(['absent', 'nulls', 'nm', 'm-only', 'multi', 'n-only', 'mixed']))
+        # a slot with M but no N next to a selected mode is not loadable (requests_from_json computes the slot range of
+        # the first entry as soon as every M is known): only generated for requests that leave the mode open
+        s = draw(st.sampled_from(['absent', 'nulls', 'nm', 'multi', 'n-only', 'mixed'] + (['m-only'] if w != 'mode' else [])))
         big = per_m * nreq + draw(st.integers(0, 3))
         if s == 'nulls':
             te['effective-freq-slot'] = [{'N': None, 'M': None}]
@@ -522,8 +569,9 @@ def services_case(draw):
                                                                   'request-id-number': members}})
         doc['synchronization'] = groups
         feats.add('synchronization')
-    doc, cls = draw(finished(doc, 'services', feats=feats))
-    return {'eq': eq, 'doc': doc, 'cls': cls, 'features': sorted(feats)}
+    extra = {}
+    doc, cls = draw(finished(doc, 'services', feats=feats, extra=extra))
+    return dict({'eq': eq, 'doc': doc, 'cls': cls, 'features': sorted(feats)}, **extra)
 
 
 # ----------------------------------------------------------------------------------------- small documents
@@ -551,8 +599,9 @@ def spectrum_case(draw):
     if draw(st.booleans()):
         parts.reverse()
         feats.add('unordered')
-    doc, cls = draw(finished({'spectrum': parts}, 'spectrum', feats=feats))
-    return {'doc': doc, 'cls': cls, 'features': sorted(feats)}
+    extra = {}
+    doc, cls = draw(finished({'spectrum': parts}, 'spectrum', feats=feats, extra=extra))
+    return dict({'doc': doc, 'cls': cls, 'features': sorted(feats)}, **extra)
 
 
 @st.composite
@@ -615,7 +664,7 @@ SEEDS = {
                   'tests/data/eqpt_config_psw.json', 'tests/data/eqpt_config_sweep.json'],
     'topology': ['gnpy/example-data/edfa_example_network.json', 'gnpy/example-data/raman_edfa_example_network.json',
                  'gnpy/example-data/multiband_example_network.json', 'gnpy/example-data/meshTopologyExampleV2.json',
-                 'tests/data/LinkforTest.json', 'tests/data/network_per_frequency_loss_expected.json',
+                 'tests/data/LinkforTest.json',
                  'tests/data/perdegreemeshTopologyExampleV2_expected.json', 'tests/data/testTopology_expected.json',
                  'tests/data/twohops_roadm_power_test.json', 'tests/data/test_network.json',
                  'tests/data/convert/edfa_example_network.json'],
